@@ -536,7 +536,45 @@ pub fn run(_params: &Params) {
       let fetch_from = if use_other { (cl + 1) % models.len() } else { cl };
       let fv = served[fetch_from].len().saturating_sub(1 + lag.min(served[fetch_from].len().saturating_sub(1)));
       let Some(sv) = served[fetch_from].get(fv) else { continue };
-      let Ok(list_cred) = StatusList2021Credential::from_json(&sv.json) else { continue };
+      // the host may serve the same list in the other spelling of base64 (the URL-safe alphabet of the W3C examples,
+      // or with padding): the same bits, so the same answers
+      let mut served_json = sv.json.clone();
+      let mut respelled = false;
+      if ctx::choose(8) == 0 {
+        if let Ok(mut v) = serde_json::from_str::<serde_json::Value>(&served_json) {
+          if let Some(enc) = v.get("credentialSubject").and_then(|c| c.get("encodedList")).and_then(|e| e.as_str()).map(str::to_owned) {
+            let new_enc = if ctx::choose(2) == 0 {
+              enc.trim_end_matches('=').replace('+', "-").replace('/', "_")
+            } else {
+              let mut p = enc.trim_end_matches('=').to_owned();
+              while p.len() % 4 != 0 {
+                p.push('=');
+              }
+              p
+            };
+            if new_enc != enc {
+              v["credentialSubject"]["encodedList"] = new_enc.into();
+              served_json = v.to_string();
+              respelled = true;
+              ctx::stat("fault.host.list_served_in_other_base64_spelling");
+            }
+          }
+        }
+      }
+      let list_cred = match StatusList2021Credential::from_json(&served_json) {
+        Ok(c) => c,
+        Err(e) => {
+          if respelled {
+            ctx::violation(
+              "C12",
+              "C12.reported_status",
+              "list-in-other-base64-spelling/not-readable",
+              format!("the status list credential served with its encodedList in the URL-safe alphabet / with padding is refused: {e}"),
+            );
+          }
+          continue;
+        }
+      };
       let mode = [StatusCheck::Strict, StatusCheck::SkipUnsupported, StatusCheck::SkipAll][ctx::choose(3)];
       // a status entry as another implementation might have written it: a required member missing or malformed.
       // Such an entry is not a StatusList2021Entry of any purpose and must be reported as invalid status.
